@@ -37,7 +37,7 @@ extern "C" void h_receive(void)
 		int a = cuts[f], b = f == frames - 1 ? n : cuts[f + 1];
 		int len = b - a; int lf = len < 126 ? 0 : len < 65536 ? 1 : 2;
 		wl += ref_frame(wire + wl, f == 0 ? 2 : 0, f == frames - 1, !client, key, pay + a, len, lf);
-		if (ping && f == 0 && frames > 1) { byte pp[2] = { 'h', 'i' }; wl += ref_frame(wire + wl, 9, true, !client, key, pp, 2, 0); }
+		if (ping && f == 0 && frames > 1) { byte pp[2] = { 'h', 'i' }; wl += ref_frame(wire + wl, 9, true, !client, key, pp, ping == 2 ? 0 : 2, 0); }      // ping == 2: a ping without payload
 	}
 	// a second, single-frame message follows on the same connection: message boundaries must be kept
 	byte second[3] = { 0x5a, nondet_u8(), 0x5b };
